@@ -11,7 +11,7 @@
    algorithm equal to CRC-32/MPEG-2, whence "the CRC of the whole section is zero". *)
 From Gots Require Import Base.Prelude Model.Pts Model.Scte Model.ScteEnc Spec.Scte35Spec
   Proofs.ScteExpected Proofs.ScteLogical Proofs.ScteDecode Proofs.ScteEncode Proofs.ScteRoundtrip Proofs.ScteSetters
-  Proofs.ScteCanonical Proofs.ScteClean Proofs.ScteWitness Proofs.ScteReflected Proofs.ScteNormalB.
+  Proofs.ScteCanonical Proofs.ScteClean Proofs.ScteWitness Proofs.ScteReflected Proofs.ScteNormalB Proofs.ScteEncBytes.
 Import Scte ScteEnc Scte35Spec.
 Local Open Scope N_scope.
 
@@ -37,6 +37,20 @@ Theorem C09_crc_clause : forall st, exists body,
   fst (update_data st) = body ++ crc_model body /\ len (crc_model body) = 4.
 Proof. exact crc_clause. Qed.
 Print Assumptions C09_crc_clause.
+
+(* composition with C13: whatever proves the CRC residue property of gots.ComputeCRC (Module Crc: it is CRC-32/MPEG-2,
+   whose residue is zero) gives "the CRC of the whole encoded section is zero", for every state *)
+Theorem C09_crc_zero_of_residue :
+  (forall m, crc_model (m ++ crc_model m) = [0; 0; 0; 0]) ->
+  forall st, crc_model (fst (update_data st)) = [0; 0; 0; 0].
+Proof. exact crc_zero_of_residue. Qed.
+Print Assumptions C09_crc_zero_of_residue.
+
+(* the encoder's output is a string of bytes *)
+Theorem C09_encode_is_bytes : forall fs st, decodable fs st -> s_protocol st < 256 -> s_cw st < 256 ->
+  is_bytes (fst (update_data st)).
+Proof. exact encode_is_bytes. Qed.
+Print Assumptions C09_encode_is_bytes.
 
 (* decoding what was encoded (pointer_field 0) reports the state's logical field values *)
 Theorem C09_decode_encode : forall fs st, decodable fs st ->
